@@ -213,6 +213,7 @@ class Engine:
     self.path_outcomes = []
     self.axioms = []             # global hypotheses (ghost function axioms, lemmas already proved)
     self.trusted = set()
+    self.inline_repo = True
     self.sort_ops = {}           # sort name -> {ast op name -> fn(engine, a, b)}
     self.vector_ops = vector_ops  # dict(add=..., smul=..., ...) for sort V arithmetic
     self._fresh = itertools.count()
@@ -470,6 +471,10 @@ class Engine:
       return self.contracts[key](self, *args, **kw)
     if key in self.libspec:
       return self.libspec[key][1](self, *args, **kw)
+    if isinstance(f, types.FunctionType) and (getattr(f, '__module__', '') or '').startswith('dinosaur') and self.inline_repo:
+      # a /repo function without its own contract: checked against its body (inlined), re-read from source
+      self.trusted.add(f'inlined (no separate contract): {f.__module__}.{f.__qualname__}')
+      return self.call_closure(self.load_function(f), args, kw)
     if isinstance(f, type) and issubclass(f, BaseException):
       return f(*[a if not is_sym(a) else str(a) for a in args])
     if callable(f) and not _any_sym(args) and not _any_sym(list(kw.values())):
